@@ -74,11 +74,20 @@ def run(ctx):
                     break
                 child, p = p, dt.mod.parents.get(p)
             ctx.ob("C07.write", dt, "the write is the last statement on its path", tail_ok, "" if tail_ok else "statements follow the truncating write: a failure there leaves a half-converted file", line=w.lineno)
+            from ..region import inline_return
+
+            def harmless(c):
+                """a one-line helper of the package that only concatenates the nodes' values (what used to be written inline)"""
+                e_ = inline_return(index, dt, c)
+                return e_ is not None and not any(
+                    isinstance(x, ast.Call) and (index.callee(dt.mod, x, dt) or "").startswith("cdd.") for x in ast.walk(e_)
+                ) and isinstance(e_, ast.Call) and isinstance(e_.func, ast.Attribute) and e_.func.attr == "join"
+
             inner = [
                 c
                 for b in w.body
                 for c in ast.walk(b)
-                if isinstance(c, ast.Call) and (index.callee(dt.mod, c, dt) or "").startswith("cdd.")
+                if isinstance(c, ast.Call) and (index.callee(dt.mod, c, dt) or "").startswith("cdd.") and not harmless(c)
             ]
             ctx.ob(
                 "C07.write",
@@ -130,6 +139,8 @@ def run(ctx):
                 if isinstance(v, ast.Name):
                     ds = local_defs(dt).get(v.id, [])
                     v = ds[0] if len(ds) == 1 else v
+                if inline_return(index, dt, v) is not None:
+                    v = inline_return(index, dt, v)
                 def values_of_every_node(e):
                     """map(attrgetter('value'), L) / (n.value for n in L) / [n.value for n in L] — every node, in order"""
                     if isinstance(e, ast.Call) and norm(e.func) == "map" and len(e.args) == 2:
